@@ -162,7 +162,7 @@ def run(ctx):
         if o is None:
             continue
         p = parsed[cid]
-        traces.append({"id": cid, "opt": o["opt"], "req": {"uid": o["req"]["uid"], "gid": o["req"]["gid"]},
+        traces.append({"id": cid, "opt": o["opt"], "req": {"uid": o["req"]["uid"], "gid": o["req"]["gid"], "hostlen": len(o["req"]["host"]), "domlen": len(o["req"]["domain"])},
                        "child": p["child"], "parent": p["parent"]})
     trace_gap = len(traces) < len(sobs) * 0.9
     cfg = open(os.path.join(os.path.dirname(os.path.dirname(os.path.abspath(__file__))), "spec", "Launch_Trace.cfg")).read()
